@@ -26,24 +26,30 @@ SPEC = {
                 n_quick=2, n_thorough=40, shards_quick=1, shards_thorough=1, timeout_quick=600, timeout_thorough=1500)],
     "rule": "generated scripts on 1..3 real hashicorp/raft nodes (in-memory stores/transports) with the real go-libp2p-raft FSM, "
             "dsstate and LogOp: pin/unpin of rich random pins over 2..4 cids submitted at leader and followers, partitions, "
-            "snapshots (also with Persist held back), restarts, the pinset after every FSM step; plus boundary-value pins, "
+            "snapshots (also with Persist held back, also with a leader snapshot installed meanwhile), restarts, the pinset after every FSM step, "
+            "the real OfflineState on a file-store copy of a member's newest own snapshot; plus boundary-value pins, "
             "malformed entries and pins with origins; and (R2) the real NewConsensus over libp2p + boltdb, 1 and 3 peers, with shutdown, "
             "restart on the same folder, install onto a restarted follower, OfflineState; and (R3) kill -9 of a child process running a "
             "1-peer consensus at a chosen acknowledgement, restart on the same folder. non-trivial = at least two ops on one cid reached the committed log and "
             "some replica restored a snapshot or restarted; distinct = distinct canonical JSON of the script",
     "codes": {1: "model_eq_impl (C01: Gallina FSM/LogOp/dsstate model driven by the observed Raft schedule)",
               2: "spec_okb (C01: every replica = replay of a prefix of the one committed sequence, nothing skipped, acknowledged ops "
-                 "in the sequence and visible on the committer, tracker told what is stored)"},
+                 "in the sequence and visible on the committer (the member whose CommitOp returned nil), tracker told what is stored, "
+                 "OfflineState = the prefix its newest snapshot is labelled with)"},
     "tags": {1: "origins-undecodable-raft", 3: "snapshot-persist-not-point-in-time"},
     "trusted": ["harness/raft/c01_rig_test.go: guard FSM (records Apply/Snapshot/Persist/Restore under one mutex, recovers panics), "
-                "recording PinTracker RPC service, redirect service standing for ConsensusRPCAPI",
+                "recording PinTracker RPC service, redirect service standing for ConsensusRPCAPI (it names the committer of an acknowledged op), "
+                "in-memory snapshot store (complete snapshots only, newest = highest (term, index) as hashicorp's file store)",
                 "hashicorp/raft v1.1.1 (replication, commitment, snapshot install), its in-memory stores and transport",
                 "ugorji msgpack and golang protobuf byte formats"],
     "level_text": "Theorems (Props/C01.v) over the Gallina transcription of FSM.Apply/Snapshot/Persist/Restore, LogOp.ApplyTo, "
                   "dsstate Marshal/Unmarshal and ProtoMarshal/ProtoUnmarshal for every log and every schedule of apply, snapshot, "
                   "install and restart events; the transcription is driven by the schedule observed on real Raft nodes at every run. Monitor theorems "
-                  "(Proofs/C01_Monitor.v, for every trace): spec_okb accepted => the Prop-level reading trace_spec; implementation = model on a trace "
-                  "(code 1 absent) under trace_guard (atomic snapshots, no S19) => every monitor conjunct the model speaks about (all but OAck, OReady)",
+                  "(Proofs/C01_Monitor.v, for every trace): spec_okb accepted => the Prop-level reading trace_spec; implementation = model on a "
+                  "well-formed trace (code 1 absent) with tag_of = 0 (the recognisers of S19 and S23 are the guard) => every monitor conjunct the model "
+                  "speaks about (all but C17's OReady; acknowledgements included), i.e. no untagged code-2 failure on a trace the model accepts; "
+                  "the model enables an acknowledgement only when the command is in the log below what its committer has applied "
+                  "(raft_ack_visible_on_committer, raft_ack_in_committer_pinset)",
     "level_note": "partial: commitment, durability of acknowledged entries and the single committed sequence are hashicorp/raft's "
                   "(assumed by the model, sampled by the rigs); model tied to code by differential testing",
     "assumptions": ["hashicorp/raft applies committed entries in index order and installs only snapshots it persisted",
